@@ -15,7 +15,7 @@ TRACE = "TraceGraphAlgebra"
 SUBJ = ["s1", "s2", "b1"]
 PRED = ["p1", "p2"]
 OBJ = ["s1", "s2", "b1", "b2", "o1", "o2"]
-STORES = ["separate", "shared", "simple", "shared_default", "mixed", "same_id", "same_id_shared_default"]
+STORES = ["separate", "shared", "simple", "shared_default", "mixed", "mixed_hidden", "same_id", "same_id_shared_default"]
 VOCABS = ["plain", "falsy", "hostile", "typed"]
 
 
